@@ -22,6 +22,9 @@ type Mutant struct {
 	Op   string `json:"op"`
 	Old  string `json:"old"`
 	New  string `json:"new"`
+	// byte range of the edit in the original file (Old is truncated for display, OldLen is exact)
+	Start  int `json:"start"`
+	OldLen int `json:"old_len"`
 }
 
 type edit struct {
@@ -206,7 +209,7 @@ func main() {
 			if len(old) > 120 {
 				old = old[:120] + "…"
 			}
-			enc.Encode(Mutant{ID: id, File: rel, Line: fset.Position(e.pos).Line, Func: parts[1], Op: parts[0], Old: old, New: e.repl})
+			enc.Encode(Mutant{ID: id, File: rel, Line: fset.Position(e.pos).Line, Func: parts[1], Op: parts[0], Old: old, New: e.repl, Start: e.start, OldLen: e.end - e.start})
 		}
 	}
 	fmt.Println("mutants:", n)
